@@ -44,6 +44,9 @@ def corpus():
           mk_bm([es, ns], [7], [d1, d2], [w1, w2], [0, 4, 0, 2], None, [1.0, 2.0], "spacing", False, True, True, "corpus-uncertainty"),
           mk_bm([es, ns], [7], [d1, d2], [w1, w2], [0, 4, 0, 2], None, [1.0, 2.0], "spacing", True, True, False, "corpus-weighted-variance"),
           mk_bm([es, ns], [7], [d1], None, [0, 4, 0, 2], None, [1.0, 2.0], "spacing", False, True, True, "corpus-uncertainty-noweights"),
+          mk_bm([es, ns], [7], [d1], None, [0, 4, 0, 2], None, [1.0, 2.0], "spacing", False, True, True, "corpus-uncertainty-noweights-tuple"),
+          mk_bm([es, ns], [7], [d1, d2], None, [0, 4, 0, 2], None, [1.0, 2.0], "spacing", False, True, True, "corpus-uncertainty-noweights-tuple"),
+          mk_bm([es, ns], [7], [d1, d2], None, [0, 4, 0, 2], None, [1.0, 2.0], "spacing", False, True, False, "corpus-noweights-tuple"),
           mk_v2w([[0.0, 2.0, float("nan"), 4.0, 1e-16, 1e-15, 2e-15]], "v2w-corpus"),
           mk_v2w([[0.0, 0.0]], "v2w-all-zero"), mk_v2w([[float("nan")]], "v2w-nan"), mk_v2w([[5.0]], "v2w-single")]
     return cs
@@ -69,13 +72,13 @@ def generate(rng, tier):
         coords = [es, ns] + ([B.values(rng, npts)] if rng.random() < 0.3 else [])
         ncomp = rng.choice([1, 1, 2, 3])
         data = [B.values(rng, npts) for _ in range(ncomp)]
-        mode = rng.choice(["none", "none", "unc", "wvar", "unc-noweights"])
+        mode = rng.choice(["none", "none", "unc", "wvar", "unc-noweights", "unc-noweights-tuple", "none-tuple"])
         weights = [B.pos_weights(rng, npts) for _ in range(ncomp)] if mode in ("unc", "wvar") else None
         shape2d = [npts]
         if npts % 2 == 0 and rng.random() < 0.3:
             shape2d = [2, npts // 2]
         cs.append(mk_bm(coords, shape2d, data, weights, region, shape, spacing, adjust, rng.random() < 0.4, rng.random() < 0.5,
-                        mode in ("unc", "unc-noweights"), "blockmean-" + mode))
+                        mode in ("unc", "unc-noweights", "unc-noweights-tuple"), "blockmean-" + mode))
     return cs
 
 
@@ -108,6 +111,8 @@ def impl(case):
     bm = vd.BlockMean(spacing=spacing, region=region, adjust=adjust, center_coordinates=centre, uncertainty=unc, shape=shape, drop_coords=drop)
     d_arg = ds[0] if len(ds) == 1 else ds
     w_arg = None if ws is None else (ws[0] if len(ws) == 1 else ws)
+    if ws is None and case.get("kind", "").endswith("-tuple"):
+        w_arg = tuple(None for _ in ds)       # verde's own canonical "no weights" (check_fit_input / train_test_split return it)
     if weights is not None or not unc:
         C.call(bm.filter, tuple(np.asarray(c) * 3.0 + 17.0 for c in cs), d_arg, w_arg)     # history: earlier use on another cloud
     r = C.call(bm.filter, cs, d_arg, w_arg)
